@@ -258,6 +258,7 @@ def run(ctx):
             if all(x is not None for x in states) and len(set(map(tuple, c["stats"]))) < len(c["stats"]):   # some outcome repeats
                 hists.append({"k": "history", "op": c["op"], "states": states})
     rng = random.Random(ctx.seed + 11)
+    hists.sort(key=lambda h: json.dumps([h["op"], h["states"][-1]["stats"]], sort_keys=True))     # TLC's emission order varies
     if len(hists) > (1500 if quick else 15000):
         hists = rng.sample(hists, 1500 if quick else 15000)
     if len(hists) < 200:
